@@ -1017,7 +1017,9 @@ pub fn c05_h_spaces(tier: Tier) -> Vec<Space> {
             gen: Box::new(move |_idx, seed| {
                 let mut rng = Rng::new(seed);
                 let len = rng.range(0, 9) as usize;
-                let script: Vec<&str> = (0..len).map(|_| *rng.pick(&ops)).collect();
+                // (the random space also uses the standard error helpers of CallTrait)
+                let ops_ext = ["c1", "c0", "r", "e", "r!", "e!", "u", "ei", "em", "en", "ei!", "c1", "r"];
+                let script: Vec<&str> = (0..len).map(|_| *rng.pick(&ops_ext)).collect();
                 let f = *rng.pick(&flagsets);
                 let a = cfg.scripted[0].clone();
                 let mut s = frame(&request(
